@@ -23,6 +23,15 @@ CHECKS = {
  "C03": (X, "property-based testing: small-scope exhaustive enumeration of chunk maps + proptest random tables, ground-truth oracle from an independent encoder",
          "Every sample of every generated file is looked up through sample_count/sample_offset/read_sample and compared with the ground truth kept by the reference encoder that produced the file; chunk-map structure is enumerated exhaustively for small N, other dimensions and large N are sampled. Bounded search: absence beyond the explored scope is not shown.",
          "trusts the harness' reference encoder (no library code) and proptest; sizes <= 300 B/sample", "DESIGN.md 4/C03"),
+ "C06": (X, "structure-aware fuzzing: exhaustive single / strided pairwise boundary-value substitution into every field of reference-encoded and canned files, box-tree surgery, prefixes and proptest havoc, through an API driver with a panic/abort oracle in two build profiles",
+         "Every generated input is opened (as file, as fragment against two init segments, with segments against it) and every read-side call is made under catch_unwind in a wrapping and an overflow-checked build; process death is attributed to the case and re-confirmed in a fresh process. Search, not proof: absence is shown only for the explored inputs.",
+         "trusts the reference encoder for seed files and the field map; inputs <= ~6 KiB", "DESIGN.md 4/C06"),
+ "C07": (X, "structure-aware fuzzing focused on size/count/offset fields with a deterministic resource oracle (operation-counting stream with hard budget, thread CPU time, supervisor stall detection)",
+         "Each call's stream operations and bytes are counted against 64*n + 65536 (open) / 64 (later calls); a non-advancing loop exhausts the budget and is reported deterministically; CPU blow-ups (> 1 s per call, normal: microseconds) are confirmed by a second execution; hangs without I/O are killed by the supervisor and re-confirmed alone.",
+         "CPU linearity only as a blow-up detector; bounds 20x above the measured maximum of 3 operations per input byte", "DESIGN.md 4/C07"),
+ "C08": (X, "structure-aware fuzzing focused on count/length/size fields with a counting global allocator as oracle",
+         "Per call the total bytes requested and the largest single request are compared with 256*n + 8 MiB and 64*n + 4 MiB; huge requests are satisfied lazily and observed in-process, refused ones abort the worker and are attributed by the supervisor.",
+         "constant term covers what 8/16-bit counts can legally demand", "DESIGN.md 4/C08"),
  "C09": (X, "property-based testing: proptest-generated fragmented movies rendered by an independent encoder, ground-truth oracle, single-stream and init+segment forms",
          "Every sample of every generated fragmented movie is compared with the builder's ground truth (offset, bytes, start, duration, composition offset, count) both when fragments follow moov in one stream and when the media segment is opened against the init segment. One open known finding (single trex) is tolerated by signature and re-confirmed from its witness on every run.",
          "trusts the reference encoder; one run per traf; sync flags not asserted", "DESIGN.md 4/C09"),
